@@ -186,6 +186,81 @@ fn run_pct(seed: &str, depth: &str, iters: &str, calls: &str) -> String {
     out.join(",")
 }
 
+fn make_task_with_clock(id: usize, clock: &[u32]) -> Task {
+    Task::from_closure(
+        Box::new(|| {}),
+        0x8000,
+        TaskId::from(id),
+        None,
+        VectorClock::from(clock),
+        None,
+        0,
+        None,
+        None,
+        TaskSignature::new_parentless(Location::caller()),
+    )
+}
+
+/// rtarget <seed> <target a.b.c | -> <allow_incomplete 0|1> <steps t3,r,t2 | -> <calls>
+/// calls: E | U | T:<id>@<a.b.c>/<id>@<a.b>; the ReplayScheduler is built from a Schedule value, given the target clock
+/// through set_target_clock, and driven directly.  A call that panics prints P and ends the case.
+fn run_rtarget(seed: &str, target: &str, allow: &str, steps: &str, calls: &str) -> String {
+    use shuttle_engine::scheduler::Schedule;
+    let mut schedule = Schedule::new(seed.parse().unwrap());
+    if steps != "-" {
+        for w in steps.split(',') {
+            if w == "r" {
+                schedule.push_random();
+            } else {
+                schedule.push_task(TaskId::from(w[1..].parse::<usize>().unwrap()));
+            }
+        }
+    }
+    let mut sched = shuttle_schedulers::ReplayScheduler::new_from_schedule(schedule);
+    if target != "-" {
+        let clk: Vec<u32> = target.split('.').map(|x| x.parse().unwrap()).collect();
+        sched.set_target_clock(&clk[..]);
+    }
+    if allow == "1" {
+        sched.set_allow_incomplete();
+    }
+    let mut out: Vec<String> = Vec::new();
+    for c in calls.split(',') {
+        let r = catch_unwind(AssertUnwindSafe(|| {
+            if c == "E" {
+                match sched.new_execution() {
+                    None => "eN".to_string(),
+                    Some(s) => format!("e{}", s.seed),
+                }
+            } else if c == "U" {
+                format!("u{}", sched.next_u64())
+            } else {
+                let tasks: Vec<Task> = c[2..]
+                    .split('/')
+                    .map(|w| {
+                        let (i, clk) = w.split_once('@').unwrap();
+                        let clk: Vec<u32> = clk.split('.').map(|x| x.parse().unwrap()).collect();
+                        make_task_with_clock(i.parse().unwrap(), &clk)
+                    })
+                    .collect();
+                let refs: Vec<&Task> = tasks.iter().collect();
+                match sched.next_task(&refs, None, false) {
+                    Some(t) => format!("t{}", usize::from(t)),
+                    None => "x".to_string(),
+                }
+            }
+        }));
+        match r {
+            Ok(s) => out.push(s),
+            Err(_) => {
+                out.push("P".to_string());
+                break;
+            }
+        }
+    }
+    out.join(",")
+}
+
 pub fn run(words: &[&str]) -> String {
     let words: Vec<String> = words.iter().map(|s| s.to_string()).collect();
     let res = catch_unwind(AssertUnwindSafe(|| {
@@ -201,6 +276,7 @@ pub fn run(words: &[&str]) -> String {
                 r
             }
             [k, seed, depth, iters, calls] if k == "pct" => run_pct(seed, depth, iters, calls),
+            [k, seed, target, allow, steps, calls] if k == "rtarget" => run_rtarget(seed, target, allow, steps, calls),
             _ => "ERR bad case".to_string(),
         })
     }));
